@@ -155,7 +155,7 @@ func runC07(cfg config) {
 					sink.add(fmt.Sprintf("CInput %s \"%s\"%%string %s, %s", coqBool(exp), n, coqZ(int64(k)), oc), src+" => "+human, "input/"+oc, key)
 					// (b) empty argument at each position, for the usual receiver and for degenerate ones of the same type
 					for pos := 0; pos < k; pos++ {
-						for ri, rv := range c07Receivers(recv) {
+						for ri, rv := range c07ReceiversFor(n, recv) {
 							parts := splitArgs(argsText[len(n)+1 : len(argsText)-1])
 							parts[pos] = e.inner
 							src := rv + "." + n + "(" + strings.Join(parts, ", ") + ")"
@@ -200,6 +200,24 @@ func splitArgs(s string) []string {
 
 // c07Receivers: the receiver a call is usually made on, and degenerate receivers of the same type (the empty string,
 // zero, a single item): an empty argument gives the same outcome whatever the receiver holds.
+// c07ReceiversFor: conversion functions take a receiver of any type and branch on it before they look at their
+// argument, so the empty argument is tried on a receiver of every System type and on FHIR elements.
+func c07ReceiversFor(name, recv string) []string {
+	rs := c07Receivers(recv)
+	if strings.HasPrefix(name, "to") || strings.HasPrefix(name, "convertsTo") {
+		for _, extra := range []string{"5", "1.5", "true", "'1 mg'", "1 'mg'", "2 days", "@2020-01-01", "@2020-01-01T10:00:00Z", "@T10:00", "Patient.active", "Patient.birthDate", "Patient.name.first()"} {
+			dup := false
+			for _, x := range rs {
+				dup = dup || x == extra
+			}
+			if !dup {
+				rs = append(rs, extra)
+			}
+		}
+	}
+	return rs
+}
+
 func c07Receivers(recv string) []string {
 	switch {
 	case strings.HasPrefix(recv, "'"):
